@@ -422,17 +422,24 @@ def run(ck, F, E):
             n_err += 1
             if not any(c.callee.endswith("populate_error_location") for c in r["calls"]):
                 bad_paths += 1
+        from lib import err_arm_passes
+        mform = err_arm_passes(F, pp, "Program::populate_error_location")
+        if mform:
+            n_err, bad_paths = max(n_err, 1), 0        # `result.map_err(|mut e| { locate(&mut e); ..; e })`
         ck.require(n_err > 0 and bad_paths == 0, "C03:ERRLINE:postprocess-locates", "error line attribution",
                    "every Err path of postprocess_result calls populate_error_location (%d path(s))" % n_err,
                    "postprocess_result passes an error on without locating it (%d of %d Err paths): run-time errors reach the host "
                    "without their line number" % (bad_paths, n_err), pp.span)
         wrapped = []
-        for ep in ("Interpreter::start_evaluating", "Interpreter::continue_evaluating"):
+        from lib import delegated_step
+        for ep, inner in (("Interpreter::start_evaluating", "Interpreter::evaluate_impl"),
+                          ("Interpreter::continue_evaluating", "Interpreter::run_next_statement")):
             eb = get_fn(ck, F, ep)
             if eb is not None:
                 d = eb.unique_def(0)
                 wrapped.append(d is not None and d[0] == "call" and d[2].callee.endswith("postprocess_result") or
-                               bool(calls_through(F, eb, "postprocess_result")))
+                               bool(calls_through(F, eb, "postprocess_result")) or
+                               delegated_step(F, eb, inner, "Interpreter::postprocess_result") is not None)
         ck.require(all(wrapped) and len(wrapped) == 2, "C03:ERRLINE:entry-points-wrapped", "error line attribution",
                    "start_evaluating and continue_evaluating return through postprocess_result",
                    "an entry point no longer returns through postprocess_result: its errors carry no line number", pp.span)
